@@ -7,22 +7,13 @@ import traceback
 from . import core, props
 
 
-class _Dummy:
-    quick = True
-    tier = "quick"
-    seed = 0
-
-    def oblige(self, *a, **k):
-        pass
-
-
 def main():
     rc = 0
     for mi in pkgutil.iter_modules(props.__path__):
         mod = importlib.import_module(f"harness.props.{mi.name}")
         if hasattr(mod, "pregen"):
             try:
-                mod.pregen(_Dummy())
+                mod.pregen(core.Run(mi.name.upper(), 'quick', 0))
             except Exception:
                 traceback.print_exc()
                 rc = 1
